@@ -475,4 +475,46 @@ inductive Reach (val : Nat → Nat) (cfail : Nat) : St → Prop
 
 end Thr
 
+/-! ## Thread::sleep (Thread.cpp): `usleep(milliseconds * 1000)` on the virtual clock.
+    ASSUMED `usleep(µs)`: the caller is suspended until the clock has advanced by at least `µs` microseconds. -/
+namespace Sleep
+
+/-- a pending sleep: wake-up time handed to the POSIX layer, and (ghost) call time and requested milliseconds -/
+structure Pending where
+  wake : Nat
+  t0 : Nat
+  ms : Nat
+deriving DecidableEq, Repr
+
+/-- ghost: a return of Thread::sleep -/
+structure Ret where
+  tid : Tid
+  t0 : Nat
+  ms : Nat
+  at_ : Nat
+deriving Repr
+
+structure St where
+  now : Nat
+  pc : Tid → Option Pending
+  log : List Ret
+
+def init (now : Nat) : St := ⟨now, fun _ => none, []⟩
+
+/-- `Op` = the milliseconds argument -/
+def step (s : St) (t : Tid) : Act Nat → Option St
+  | .tick q => some { s with now := s.now + q }
+  | .call ms =>          -- usleep(milliseconds * 1000): microseconds; the POSIX layer counts nanoseconds
+    if s.pc t = none then some { s with pc := upd s.pc t (some ⟨s.now + (ms * 1000) * 1000, s.now, ms⟩) } else none
+  | .run alt =>
+    match s.pc t with
+    | none => none
+    | some p => if alt = 0 ∧ p.wake ≤ s.now then some { s with pc := upd s.pc t none, log := ⟨t, p.t0, p.ms, s.now⟩ :: s.log } else none
+
+inductive Reach (now : Nat) : St → Prop
+  | init : Reach now (init now)
+  | step {s s' t a} : Reach now s → step s t a = some s' → Reach now s'
+
+end Sleep
+
 end Nstd.Sync
